@@ -150,6 +150,10 @@ static int scan_module(struct context_data *ctx, int ep, int chain)
      */
     ord2 = -1;
     ord = ep - 1;
+#ifdef LIBXMP_VERIF
+    if (libxmp_verif_scanlog)
+	libxmp_verif_scanlog(3, ep, chain, 0);
+#endif
 
     gvol_memory = break_row = row_count = row_count_total = frame_count = 0;
     orders_since_last_valid = any_valid = 0;
